@@ -87,3 +87,22 @@ package tcp
 //@   requires p != nil && p.cfg != nil && c != nil
 //@   modifies all
 //@   callpre lb.New @the-balancer-is-replaced-only-when-the-policy-changes arg0 == c.LbPolicy && ite(p.cfg == nil, 0, p.cfg.LbPolicy) != arg0
+
+// ---- C08: the processor that is built carries the requested name and configuration ----------------------------
+
+//@ func (*builder).Build
+//@   prop C08
+//@   modifies all
+//@   callpre newProc @built-from-the-parameters-as-given arg0 == params.Name && arg1 == params.Cfg && sameslice(arg2, params.Hosts)
+
+//@ func (*tcpProc).Name
+//@   prop C08
+//@   requires p != nil
+//@   modifies nothing
+//@   ensures @the-name-it-was-built-with result == p.name
+
+//@ func (*tcpProc).Config
+//@   prop C08
+//@   requires p != nil
+//@   modifies nothing
+//@   ensures @the-current-configuration result == p.cfg
